@@ -1,6 +1,7 @@
 package rules
 
 import (
+	"fmt"
 	"go/constant"
 	"go/token"
 	"go/types"
@@ -17,11 +18,11 @@ func init() {
 		Pkgs:      []string{"files"},
 		Run:       runC20,
 		Technique: "static analysis: forward taint from zip entry names to file-creating sinks (with summaries of repository helpers) sanitised only by a dominating containment guard; shape check of the containment predicate; path enumeration of the walk callback with a per-path boolean valuation (go/ssa)",
-		Explanation: "R1: no value derived from archive/zip entry names (File.Name / FileHeader.Name, through filepath.Join/Split/Dir/Clean/Base, concatenation, Sprintf, phi) reaches a file-system creating call (os.Create, os.OpenFile, os.Mkdir(All), os.WriteFile, os.Rename, and repository functions whose parameter reaches one) unless the sink is dominated by the true edge of a containment test applied to that value (or to the value it is the Dir of). " +
+		Explanation: "R1: no value derived from archive/zip entry names (File.Name / FileHeader.Name, through filepath.Join/Split/Dir/Clean/Base, concatenation, Sprintf, phi) reaches a file-system creating call (os.Create, os.OpenFile, os.Mkdir(All), os.WriteFile, os.Rename, and repository functions whose parameter reaches one) unless the sink is dominated by the true edge of a containment test applied to that value (or to the value it is the Dir of), or - asked per path, with phi nodes resolved to the operand the path selects - every path to the sink either carries no entry-name-derived value in the argument or knows a containment test on it to have succeeded; the test may be a predicate call or the same test spelled out in place (filepath.Rel with err == nil, rel != \"..\" and !HasPrefix(rel, \"..\"+separator) all known on the path); entry names are followed through repository helpers whose result derives from a parameter. " +
 			"R3: the name ZipFolder/ZipWriter gives an archive entry derives from the walked file path only through injective operations (slicing off the source prefix, filepath.Rel, Join, ToSlash, TrimPrefix); cut-set trims, case folding, Replace and Base are rejected - a necessary condition of the lossless round trip. " +
 			"R4: files are created truncating (os.Create, or os.OpenFile with O_TRUNC/O_EXCL). " +
 			"R2: the containment test is filepath.IsLocal, or a repository predicate built from filepath.Rel plus the '..' test, or strings.HasPrefix against a prefix that ends with a path separator; a bare string-prefix test (which accepts sibling directories such as out-old for out) is rejected. " +
-			"R5: in the walk callback a file reaches the archive write only on paths on which BOTH selection inputs decided so: the filter is nil or was called on the walked path and returned true, and the recursive flag is true or the comparison of the file's directory with the source directory decided 'same directory' (paths enumerated with phi operands resolved per path, so an overwritten flag variable counts as not decided). R6: a captured directory string that is cut off the walked path by its length, or compared with the walked path's directory, derives from a path-cleaning call (filepath.Walk hands out cleaned paths).",
+			"R5: in the function that writes archive entries (closure, method used as walk function; the selection inputs are its captured variables, receiver fields or parameters of type func(string) bool / bool that it only reads) a file reaches the archive write only on paths on which BOTH selection inputs decided so: the filter is nil or was called on the walked path and returned true, and the recursive flag is true or the comparison of the file's directory with the source directory decided 'same directory' (paths enumerated with phi operands resolved per path, so an overwritten flag variable counts as not decided; a repository predicate that is handed the walked path and the inputs counts, when its result is known on the path, for what every one of its own paths returning that result has decided). R6 (for captured variables, parameters - every call site - and receiver fields - every store): a captured directory string that is cut off the walked path by its length, or compared with the walked path's directory, derives from a path-cleaning call (filepath.Walk hands out cleaned paths).",
 		NotDecided: "the lossless round trip ZipFolder -> UnzipToFolder as such (equal relative paths and contents for every tree) is a value statement over file trees; injectivity of the name mapping (R3) and the selection clause (R5: both selection inputs decide on every path) are the structural parts decided; symbolic links already present inside the destination.",
 		Trusted:    []string{"archive/zip entry names are attacker controlled", "filepath.Rel / filepath.IsLocal semantics"},
 	})
@@ -39,6 +40,13 @@ func runC20(c *Ctx) {
 	}
 	// summaries: parameters of repository functions that reach a sink
 	reach := map[*ssa.Function]map[int]bool{}
+	// summaries: parameters of repository functions a result derives from (join/rel-style helpers, helpers that
+	// build and return the destination name)
+	flows := map[*ssa.Function]map[int]bool{}
+	inPkg := map[*ssa.Function]bool{}
+	for _, fn := range fns {
+		inPkg[fn] = true
+	}
 	sinkArgs := func(call ssa.CallInstruction) []ssa.Value {
 		name := ir.CalleeFullName(call)
 		var res []ssa.Value
@@ -138,17 +146,55 @@ func runC20(c *Ctx) {
 								mark(x)
 							}
 						}
+					default:
+						if cal := ir.StaticCallee(x); cal != nil && inPkg[cal] {
+							for i := range flows[cal] {
+								if i < len(x.Call.Args) && t[x.Call.Args[i]] {
+									mark(x)
+								}
+							}
+						}
 					}
 				}
 			})
 		}
 		return t
 	}
+	isStringy := func(t types.Type) bool {
+		b, ok := t.Underlying().(*types.Basic)
+		return ok && b.Info()&types.IsString != 0
+	}
 	for changed := true; changed; {
 		changed = false
 		for _, fn := range fns {
 			for i, p := range fn.Params {
-				if b, ok := p.Type().Underlying().(*types.Basic); !ok || b.Kind() != types.String {
+				if !isStringy(p.Type()) || flows[fn][i] {
+					continue
+				}
+				t := derives(fn, map[ssa.Value]bool{p: true})
+				hit := false
+				for _, ret := range ir.Returns(fn) {
+					for _, r := range ret.Results {
+						if t[r] {
+							hit = true
+						}
+					}
+				}
+				if hit {
+					if flows[fn] == nil {
+						flows[fn] = map[int]bool{}
+					}
+					flows[fn][i] = true
+					changed = true
+				}
+			}
+		}
+	}
+	for changed := true; changed; {
+		changed = false
+		for _, fn := range fns {
+			for i, p := range fn.Params {
+				if !isStringy(p.Type()) {
 					continue
 				}
 				if reach[fn][i] {
@@ -206,6 +252,11 @@ func runC20(c *Ctx) {
 			switch ir.CalleeFullName(call) {
 			case "path/filepath.Rel":
 				usesRel = true
+			default:
+				// a repository wrapper of filepath.Rel (a method of a directory type, say)
+				if _, isRel := relCall(call); isRel {
+					usesRel = true
+				}
 			case "strings.HasPrefix":
 				usesPrefix = true
 				pre := ir.Resolve(call.Call.Args[1])
@@ -257,6 +308,7 @@ func runC20(c *Ctx) {
 		return f != nil && f.Name() == "Name" && f.Pkg() != nil && f.Pkg().Path() == "archive/zip"
 	}
 	nSinks := 0
+	usedInline := map[*ssa.Call]*ssa.Function{} // in-place containment tests that discharged a sink
 	for _, fn := range fns {
 		src := map[ssa.Value]bool{}
 		ir.Instrs(fn, func(in ssa.Instruction) {
@@ -305,6 +357,60 @@ func runC20(c *Ctx) {
 					}
 					guarded = true
 				}
+				if !guarded {
+					// the same question asked per path: the test need not dominate the sink as a branch condition (its
+					// result may travel through a boolean variable, the tested name through a result variable of an
+					// inlined helper), and it may be spelled out in place (filepath.Rel + the ".." tests)
+					ev := c.containmentEvidence(fn, t, isContainment)
+					sinkCall, sinkArg := call, a
+					tmpUsed := map[*ssa.Call]bool{}
+					q := ir.PathQuery{Fn: fn, Target: func(in ssa.Instruction, val *ir.Valuation) bool {
+						if in != sinkCall.(ssa.Instruction) {
+							return false
+						}
+						ra := val.Selected(sinkArg)
+						if !t[ra] {
+							return false // on this path the argument is not built from an entry name (e.g. the "" of an error return)
+						}
+						for _, gc := range ev.calls {
+							if k, ok := val.Known(gc.call); !ok || !k {
+								continue
+							}
+							cov := false
+							for _, ga := range gc.call.Call.Args {
+								if t[ga] && coversOn(val, ra, ga) {
+									cov = true
+								}
+							}
+							if !cov {
+								continue
+							}
+							if gc.pred != nil && !preds[gc.pred].ok {
+								weak = preds[gc.pred].detail
+								continue
+							}
+							return false
+						}
+						for _, rt := range ev.inline {
+							if coversOn(val, ra, rt.target) && rt.holds(val) {
+								tmpUsed[rt.rel] = true
+								return false
+							}
+						}
+						return true
+					}}
+					w, err := q.Find()
+					switch {
+					case err != nil:
+						c.Undecided("C20.R1", fn, "entry name -> "+shortCallee(call)+" is guarded", call, err.Error())
+						continue
+					case w == nil:
+						guarded = true
+						for rc := range tmpUsed {
+							usedInline[rc] = fn
+						}
+					}
+				}
 				detail := "a path built from a zip entry name reaches " + ir.CalleeFullName(call) + " without a dominating containment test on it: an entry named ../x or /abs is created outside the destination"
 				if !guarded && weak != "" {
 					detail = "the only containment test on this path is unsound: " + weak
@@ -318,6 +424,11 @@ func runC20(c *Ctx) {
 				}
 			}
 		}
+	}
+	// R2 for tests spelled out in place: the recognised form is filepath.Rel + err == nil + rel != ".." +
+	// !HasPrefix(rel, ".."+separator), which is separator-safe by construction
+	for rc, fn := range usedInline {
+		c.Decide("C20.R2", fn, "in-place containment test (filepath.Rel form) is separator-safe", rc, true, "")
 	}
 	// R2: report the shape verdict of each predicate that guards something
 	for fn, pi := range preds {
@@ -468,53 +579,63 @@ func endsWithSeparator(v ssa.Value) bool {
 // callback are enumerated with phi nodes resolved per path, so a flag variable assigned by one test and overwritten
 // by the other is seen as "not decided on this path". It decides that structural part of "every file the filter and
 // the recursive flag select, and nothing else", not the round trip.
+//
+// The selection inputs are found by what they are - a func(string) bool and a bool that the function only reads - in
+// whichever representation the code keeps them: variables captured by a closure, fields of the receiver of a method
+// used as the walk function, parameters of a helper. A selection predicate of the repository (a bool function that is
+// handed the walked path and the inputs) is not presumed to decide anything: its own paths are enumerated, and a call
+// of it known true (false) counts for what every path returning true (false) has decided.
 func (c *Ctx) zipSelection(fns []*ssa.Function, rule, rule6 string) {
-	n, n6 := 0, 0
+	z := &zipSel{c: c, fns: fns, rule6: rule6, inPkg: map[*ssa.Function]bool{}, archives: map[*ssa.Function]bool{},
+		visited: map[string]*selRoles{}, summaries: map[string]*bool{}, r6done: map[string]bool{}}
 	for _, fn := range fns {
-		var creates []*ssa.Call
+		z.inPkg[fn] = true
+	}
+	// functions that write archive entries, directly or through repository functions they call
+	for _, fn := range fns {
 		for _, call := range ir.Calls(fn) {
-			if cc, ok := call.(*ssa.Call); ok {
-				switch ir.CalleeFullName(cc) {
-				case "(*archive/zip.Writer).Create", "(*archive/zip.Writer).CreateHeader":
-					creates = append(creates, cc)
+			if isArchiveCreate(call) {
+				z.archives[fn] = true
+			}
+		}
+	}
+	for changed := true; changed; {
+		changed = false
+		for _, fn := range fns {
+			if z.archives[fn] {
+				continue
+			}
+			for _, call := range ir.Calls(fn) {
+				if cal := ir.StaticCallee(call); cal != nil && z.archives[cal] {
+					if _, isCall := call.(*ssa.Call); isCall {
+						z.archives[fn] = true
+						changed = true
+					}
 				}
 			}
 		}
-		if len(creates) == 0 || fn.Parent() == nil {
+	}
+	for _, fn := range fns {
+		if !z.archives[fn] {
 			continue
 		}
-		// selection inputs captured from the enclosing function: a func(string) bool and a bool
-		var filter, flag ssa.Value
-		var others []ssa.Value
-		for _, fv := range fn.FreeVars {
-			pt, ok := fv.Type().Underlying().(*types.Pointer)
+		var writes []*ssa.Call
+		for _, call := range ir.Calls(fn) {
+			cc, ok := call.(*ssa.Call)
 			if !ok {
 				continue
 			}
-			switch t := pt.Elem().Underlying().(type) {
-			case *types.Signature:
-				if t.Params().Len() == 1 && t.Results().Len() == 1 && types.Identical(t.Results().At(0).Type(), types.Typ[types.Bool]) {
-					filter = fv
-				}
-			case *types.Basic:
-				if t.Kind() == types.Bool {
-					flag = fv
-				} else if t.Kind() == types.String {
-					others = append(others, fv)
-				}
+			if isArchiveCreate(cc) {
+				writes = append(writes, cc)
+			} else if cal := ir.StaticCallee(cc); cal != nil && z.archives[cal] {
+				writes = append(writes, cc)
 			}
 		}
-		if filter == nil && flag == nil {
+		if len(writes) == 0 {
 			continue
 		}
-		var pathParam *ssa.Parameter
-		for _, p := range fn.Params {
-			if b, ok := p.Type().Underlying().(*types.Basic); ok && b.Kind() == types.String {
-				pathParam = p
-				break
-			}
-		}
-		if pathParam == nil {
+		r := z.topRoles(fn)
+		if r == nil {
 			continue
 		}
 		// a walk that prunes directories (filepath.SkipDir) selects by other means: not analysed
@@ -529,185 +650,721 @@ func (c *Ctx) zipSelection(fns []*ssa.Function, rule, rule6 string) {
 			}
 		})
 		c.Saw(fn)
-		// data dependence (backward) of a value on the walked path / on a captured string
-		var dep func(v ssa.Value, want func(ssa.Value) bool, seen map[ssa.Value]bool, d int) bool
-		dep = func(v ssa.Value, want func(ssa.Value) bool, seen map[ssa.Value]bool, d int) bool {
-			if v == nil || seen[v] || d > 14 {
-				return false
+		z.visit(r, 0)
+		for _, cr := range writes {
+			if prunes {
+				c.Decide(rule, fn, "selection delegated to directory pruning (not analysed)", cr, true, "")
+				continue
 			}
-			seen[v] = true
-			if want(v) {
-				return true
-			}
-			switch x := v.(type) {
-			case *ssa.UnOp:
-				if a, ok := x.X.(*ssa.Alloc); ok && x.Op == token.MUL {
-					for _, st := range ir.StoresTo(a) {
-						if dep(st.Val, want, seen, d+1) {
-							return true
-						}
+			for _, kind := range []int{selFilter, selFlag} {
+				if (kind == selFilter && len(r.filters) == 0) || (kind == selFlag && len(r.flags) == 0) {
+					continue
+				}
+				kind, cr := kind, cr
+				q := ir.PathQuery{Fn: fn, Target: func(in ssa.Instruction, val *ir.Valuation) bool {
+					if in != ssa.Instruction(cr) {
+						return false
 					}
-					return false
+					return !z.decidedOn(r, val, kind, 0)
+				}}
+				if kind == selFilter {
+					c.pathVerdict(rule, fn, "archived only if the filter is nil or accepted the path", cr, q,
+						"a file becomes an archive entry on a path where the filter was neither nil nor asked-and-true: files the filter rejects are archived (or the filter's verdict is overwritten before it is used)")
+				} else {
+					c.pathVerdict(rule, fn, "archived only if recursive or the file lies directly in the source directory", cr, q,
+						"a file becomes an archive entry on a path where the recursive flag is not known true and the directory comparison did not decide 'same directory': files of sub-folders are archived in non-recursive mode (or the test result is overwritten before it is used)")
 				}
 			}
-			in, ok := v.(ssa.Instruction)
-			if !ok {
-				return false
+		}
+	}
+	c.R.Floor(rule, 2)
+}
+
+func isArchiveCreate(call ssa.CallInstruction) bool {
+	switch ir.CalleeFullName(call) {
+	case "(*archive/zip.Writer).Create", "(*archive/zip.Writer).CreateHeader":
+		return true
+	}
+	return false
+}
+
+const (
+	selFilter = iota
+	selFlag
+)
+
+// selInput is something a function only reads: a variable captured by a closure, a field of the receiver of a method,
+// a parameter.
+type selInput struct {
+	fv    *ssa.FreeVar
+	field *types.Var
+	param *ssa.Parameter
+	typ   types.Type
+	reads map[ssa.Value]bool // the SSA values of fn that are the content of the input (not used for captured variables)
+}
+
+func (in *selInput) key() string {
+	switch {
+	case in.fv != nil:
+		return "fv:" + in.fv.Name()
+	case in.field != nil:
+		return "field:" + in.field.Name()
+	default:
+		return "param:" + in.param.Name()
+	}
+}
+
+// isRead: v is the content of the input (through string conversions and single-assignment locals).
+func (in *selInput) isRead(v ssa.Value) bool {
+	v = peelLocal(v)
+	if in.fv != nil {
+		u, ok := v.(*ssa.UnOp)
+		return ok && u.Op == token.MUL && u.X == ssa.Value(in.fv)
+	}
+	return in.reads[v]
+}
+
+// peelLocal strips conversions between string types and loads of locals that are assigned once; loads of captured
+// variables and of fields stay what they are.
+func peelLocal(v ssa.Value) ssa.Value {
+	for i := 0; i < 16 && v != nil; i++ {
+		switch x := v.(type) {
+		case *ssa.ChangeType:
+			v = x.X
+		case *ssa.Convert:
+			if !isStringType(x.Type()) || !isStringType(x.X.Type()) {
+				return v
 			}
-			for _, op := range in.Operands(nil) {
-				if op != nil && *op != nil && dep(*op, want, seen, d+1) {
+			v = x.X
+		case *ssa.UnOp:
+			a, ok := x.X.(*ssa.Alloc)
+			if !ok || x.Op != token.MUL {
+				return v
+			}
+			sts := ir.StoresTo(a)
+			if len(sts) != 1 {
+				return v
+			}
+			v = sts[0].Val
+		default:
+			return v
+		}
+	}
+	return v
+}
+
+func isStringType(t types.Type) bool {
+	b, ok := t.Underlying().(*types.Basic)
+	return ok && b.Info()&types.IsString != 0
+}
+
+func isFilterType(t types.Type) bool {
+	sg, ok := t.Underlying().(*types.Signature)
+	return ok && sg.Params().Len() == 1 && sg.Results().Len() == 1 && types.Identical(sg.Results().At(0).Type(), types.Typ[types.Bool])
+}
+
+func isBoolType(t types.Type) bool {
+	b, ok := t.Underlying().(*types.Basic)
+	return ok && b.Kind() == types.Bool
+}
+
+// selRoles: what is what in one function of the selection.
+type selRoles struct {
+	fn      *ssa.Function
+	key     string
+	paths   map[ssa.Value]bool // parameters holding the walked path
+	filters []*selInput
+	flags   []*selInput
+	dirs    []*selInput
+	// candidates (filled by visit)
+	filterCalls map[*selInput][]*ssa.Call
+	nilTests    map[*selInput][]*ssa.BinOp
+	dirTests    []ssa.Value
+	helpers     []*selHelper
+}
+
+// selHelper is a call of a repository function that is handed the walked path.
+type selHelper struct {
+	call  *ssa.Call
+	roles *selRoles // the callee seen with the caller's inputs mapped onto its parameters / receiver fields
+}
+
+type zipSel struct {
+	c         *Ctx
+	fns       []*ssa.Function
+	rule6     string
+	inPkg     map[*ssa.Function]bool
+	archives  map[*ssa.Function]bool
+	visited   map[string]*selRoles
+	summaries map[string]*bool
+	r6done    map[string]bool
+}
+
+// receiverInputs: the fields of fn's receiver that fn reads and that nothing but a constructor writes.
+func (z *zipSel) receiverInputs(fn *ssa.Function) []*selInput {
+	if fn.Signature.Recv() == nil || len(fn.Params) == 0 {
+		return nil
+	}
+	recv := fn.Params[0]
+	byField := map[*types.Var]*selInput{}
+	var order []*types.Var
+	ir.Instrs(fn, func(in ssa.Instruction) {
+		var f *types.Var
+		var val ssa.Value
+		switch x := in.(type) {
+		case *ssa.UnOp:
+			fa, ok := x.X.(*ssa.FieldAddr)
+			if !ok || x.Op != token.MUL || peelLocal(fa.X) != ssa.Value(recv) {
+				return
+			}
+			f, val = ir.FieldOf(fa), x
+		case *ssa.Field:
+			if peelLocal(x.X) != ssa.Value(recv) {
+				return
+			}
+			f, val = ir.FieldOf(x), x
+		default:
+			return
+		}
+		if f == nil {
+			return
+		}
+		if byField[f] == nil {
+			byField[f] = &selInput{field: f, typ: f.Type(), reads: map[ssa.Value]bool{}}
+			order = append(order, f)
+		}
+		byField[f].reads[val] = true
+	})
+	var res []*selInput
+	for _, f := range order {
+		if z.fieldWrittenOutsideConstructor(f, fn) {
+			continue
+		}
+		res = append(res, byField[f])
+	}
+	return res
+}
+
+// fieldStores lists the stores of the package into field f.
+func (z *zipSel) fieldStores(f *types.Var) []*ssa.Store {
+	var res []*ssa.Store
+	for _, fn := range z.fns {
+		ir.Instrs(fn, func(in ssa.Instruction) {
+			if st, ok := in.(*ssa.Store); ok {
+				if fa, isFA := st.Addr.(*ssa.FieldAddr); isFA && ir.FieldOf(fa) == f {
+					res = append(res, st)
+				}
+			}
+		})
+	}
+	return res
+}
+
+// fieldWrittenOutsideConstructor: f is stored to in reader itself, or somewhere through anything but a freshly
+// allocated struct (composite literal / local variable).
+func (z *zipSel) fieldWrittenOutsideConstructor(f *types.Var, reader *ssa.Function) bool {
+	for _, st := range z.fieldStores(f) {
+		if st.Parent() == reader {
+			return true
+		}
+		if _, fresh := st.Addr.(*ssa.FieldAddr).X.(*ssa.Alloc); !fresh {
+			return true
+		}
+	}
+	return false
+}
+
+func classify(r *selRoles, in *selInput) {
+	switch {
+	case isFilterType(in.typ):
+		r.filters = append(r.filters, in)
+	case isBoolType(in.typ):
+		r.flags = append(r.flags, in)
+	case isStringType(in.typ):
+		r.dirs = append(r.dirs, in)
+	}
+}
+
+// topRoles resolves the roles in a function that writes archive entries: the walked path is its first string parameter,
+// the selection inputs are the captured variables / receiver fields / other parameters of the fitting types.
+func (z *zipSel) topRoles(fn *ssa.Function) *selRoles {
+	r := &selRoles{fn: fn, key: ir.FnName(fn), paths: map[ssa.Value]bool{}}
+	start := 0
+	if fn.Signature.Recv() != nil {
+		start = 1
+	}
+	for i := start; i < len(fn.Params); i++ {
+		if b, ok := fn.Params[i].Type().Underlying().(*types.Basic); ok && b.Kind() == types.String {
+			r.paths[fn.Params[i]] = true
+			break
+		}
+	}
+	if len(r.paths) == 0 {
+		return nil
+	}
+	for _, fv := range fn.FreeVars {
+		if pt, ok := fv.Type().Underlying().(*types.Pointer); ok {
+			classify(r, &selInput{fv: fv, typ: pt.Elem()})
+		}
+	}
+	for _, in := range z.receiverInputs(fn) {
+		classify(r, in)
+	}
+	for i := start; i < len(fn.Params); i++ {
+		p := fn.Params[i]
+		if r.paths[p] {
+			continue
+		}
+		classify(r, &selInput{param: p, typ: p.Type(), reads: map[ssa.Value]bool{p: true}})
+	}
+	if len(r.filters) == 0 && len(r.flags) == 0 {
+		return nil
+	}
+	return r
+}
+
+// calleeRoles maps the caller's roles onto the parameters (and, for a method called on the same receiver, the receiver
+// fields) of the callee of call. nil when the callee is not handed the walked path.
+func (z *zipSel) calleeRoles(r *selRoles, call *ssa.Call) *selRoles {
+	cal := ir.StaticCallee(call)
+	if cal == nil || !z.inPkg[cal] || len(cal.Blocks) == 0 || cal == r.fn {
+		return nil
+	}
+	args := call.Call.Args
+	if len(args) != len(cal.Params) {
+		return nil
+	}
+	h := &selRoles{fn: cal, paths: map[ssa.Value]bool{}}
+	key := ir.FnName(cal) + "("
+	for i, p := range cal.Params {
+		a := args[i]
+		tag := "-"
+		switch {
+		case i == 0 && cal.Signature.Recv() != nil:
+			if r.fn.Signature.Recv() != nil && len(r.fn.Params) > 0 && peelLocal(a) == ssa.Value(r.fn.Params[0]) {
+				for _, in := range z.receiverInputs(cal) {
+					classify(h, in)
+				}
+				tag = "recv"
+			} else if isStringType(p.Type()) && !z.onPath(r, a) {
+				// a method of a string type (a directory name type) called on an input
+				h.dirs = append(h.dirs, &selInput{param: p, typ: p.Type(), reads: map[ssa.Value]bool{p: true}})
+				tag = "dir"
+			}
+		case isStringType(p.Type()) && z.onPath(r, a):
+			h.paths[p] = true
+			tag = "path"
+		case isStringType(p.Type()):
+			h.dirs = append(h.dirs, &selInput{param: p, typ: p.Type(), reads: map[ssa.Value]bool{p: true}})
+			tag = "dir"
+		case isFilterType(p.Type()):
+			for _, f := range r.filters {
+				if f.isRead(a) {
+					h.filters = append(h.filters, &selInput{param: p, typ: p.Type(), reads: map[ssa.Value]bool{p: true}})
+					tag = "filter"
+				}
+			}
+		case isBoolType(p.Type()):
+			for _, f := range r.flags {
+				if f.isRead(a) {
+					h.flags = append(h.flags, &selInput{param: p, typ: p.Type(), reads: map[ssa.Value]bool{p: true}})
+					tag = "flag"
+				}
+			}
+		}
+		key += tag + ","
+	}
+	if len(h.paths) == 0 {
+		return nil
+	}
+	h.key = key + ")"
+	return h
+}
+
+// dep: v depends (backward, through operands and stores into locals) on a value satisfying want.
+func selDep(v ssa.Value, want func(ssa.Value) bool, seen map[ssa.Value]bool, d int) bool {
+	if v == nil || seen[v] || d > 14 {
+		return false
+	}
+	seen[v] = true
+	if want(v) {
+		return true
+	}
+	switch x := v.(type) {
+	case *ssa.UnOp:
+		if a, ok := x.X.(*ssa.Alloc); ok && x.Op == token.MUL {
+			for _, st := range ir.StoresTo(a) {
+				if selDep(st.Val, want, seen, d+1) {
 					return true
 				}
 			}
 			return false
 		}
-		onPath := func(v ssa.Value) bool {
-			return dep(v, func(x ssa.Value) bool { return x == ssa.Value(pathParam) }, map[ssa.Value]bool{}, 0)
+	}
+	in, ok := v.(ssa.Instruction)
+	if !ok {
+		return false
+	}
+	for _, op := range in.Operands(nil) {
+		if op != nil && *op != nil && selDep(*op, want, seen, d+1) {
+			return true
 		}
-		onSrc := func(v ssa.Value) bool {
-			return dep(v, func(x ssa.Value) bool {
-				for _, o := range others {
-					if x == o {
-						return true
-					}
-				}
-				return false
-			}, map[ssa.Value]bool{}, 0)
+	}
+	return false
+}
+
+func (z *zipSel) onPath(r *selRoles, v ssa.Value) bool {
+	return selDep(v, func(x ssa.Value) bool { return r.paths[x] }, map[ssa.Value]bool{}, 0)
+}
+
+func (z *zipSel) onSrc(r *selRoles, v ssa.Value) bool {
+	return selDep(v, func(x ssa.Value) bool {
+		for _, d := range r.dirs {
+			if d.fv != nil && x == ssa.Value(d.fv) {
+				return true
+			}
+			if d.fv == nil && d.reads[x] {
+				return true
+			}
 		}
-		// candidates
-		var filterCalls []*ssa.Call
-		var dirTests []ssa.Value
-		ir.Instrs(fn, func(in ssa.Instruction) {
-			switch x := in.(type) {
-			case *ssa.Call:
-				if filter != nil && !x.Call.IsInvoke() {
-					if ld, ok := x.Call.Value.(*ssa.UnOp); ok && ld.Op == token.MUL && ld.X == filter {
-						if len(x.Call.Args) == 1 && onPath(x.Call.Args[0]) {
-							filterCalls = append(filterCalls, x)
+		return false
+	}, map[ssa.Value]bool{}, 0)
+}
+
+// dirInputOf: the directory input v is a read of.
+func (r *selRoles) dirInputOf(v ssa.Value) *selInput {
+	for _, d := range r.dirs {
+		if d.isRead(v) {
+			return d
+		}
+	}
+	return nil
+}
+
+// visit collects the candidates of one function (filter calls, nil tests, directory tests, helper calls), checks R6 on
+// it and descends into the helpers that are handed the walked path.
+func (z *zipSel) visit(r *selRoles, depth int) *selRoles {
+	if prev, ok := z.visited[r.key]; ok {
+		return prev
+	}
+	z.visited[r.key] = r
+	fn := r.fn
+	r.filterCalls = map[*selInput][]*ssa.Call{}
+	r.nilTests = map[*selInput][]*ssa.BinOp{}
+	var helperCalls []*ssa.Call
+	ir.Instrs(fn, func(in ssa.Instruction) {
+		switch x := in.(type) {
+		case *ssa.Call:
+			if !x.Call.IsInvoke() {
+				for _, f := range r.filters {
+					if f.isRead(x.Call.Value) {
+						if len(x.Call.Args) == 1 && z.onPath(r, x.Call.Args[0]) {
+							r.filterCalls[f] = append(r.filterCalls[f], x)
 						}
 						return
 					}
 				}
-				if types.Identical(x.Type(), types.Typ[types.Bool]) && onPath(x) && onSrc(x) {
-					dirTests = append(dirTests, x)
-				}
-			case *ssa.BinOp:
-				if (x.Op == token.EQL || x.Op == token.NEQ) && onPath(x) && onSrc(x) {
-					if b, ok := x.X.Type().Underlying().(*types.Basic); ok && b.Info()&types.IsString != 0 {
-						dirTests = append(dirTests, x)
-					}
+			}
+			if cal := ir.StaticCallee(x); cal != nil && z.inPkg[cal] && len(cal.Blocks) > 0 {
+				helperCalls = append(helperCalls, x)
+				return
+			}
+			if types.Identical(x.Type(), types.Typ[types.Bool]) && z.onPath(r, x) && z.onSrc(r, x) {
+				r.dirTests = append(r.dirTests, x)
+			}
+		case *ssa.BinOp:
+			if x.Op != token.EQL && x.Op != token.NEQ {
+				return
+			}
+			for _, f := range r.filters {
+				if (f.isRead(x.X) && ir.IsNilConst(x.Y)) || (f.isRead(x.Y) && ir.IsNilConst(x.X)) {
+					r.nilTests[f] = append(r.nilTests[f], x)
 				}
 			}
-		})
-		// R6: prefix arithmetic on walked paths needs a cleaned root. filepath.Walk hands the callback paths built with
-		// filepath.Join(root, name), i.e. cleaned; a captured directory string that is sliced off the walked path by its
-		// length, or compared with (the directory of) the walked path, is the prefix actually present only if it is in
-		// filepath.Clean form itself ("." / "./x" / "x/." / "x//" / "x/y/.." are not).
-		if rule6 != "" {
-			usedAsPrefix := map[ssa.Value]ssa.Instruction{}
-			cellOfLoad := func(v ssa.Value) ssa.Value {
-				if u, ok := ir.Resolve(v).(*ssa.UnOp); ok && u.Op == token.MUL {
-					for _, o := range others {
-						if u.X == o {
-							return o
-						}
-					}
+			if z.onPath(r, x) && z.onSrc(r, x) {
+				if b, ok := x.X.Type().Underlying().(*types.Basic); ok && b.Info()&types.IsString != 0 {
+					r.dirTests = append(r.dirTests, x)
 				}
-				return nil
-			}
-			ir.Instrs(fn, func(in ssa.Instruction) {
-				switch x := in.(type) {
-				case *ssa.Slice:
-					if x.Low == nil || !onPath(x.X) {
-						return
-					}
-					if call, ok := ir.Resolve(x.Low).(*ssa.Call); ok {
-						if b := builtinCall(call, "len"); b != nil {
-							if cell := cellOfLoad(b.Args[0]); cell != nil {
-								usedAsPrefix[cell] = in
-							}
-						}
-					}
-				case *ssa.BinOp:
-					if x.Op == token.EQL || x.Op == token.NEQ {
-						for _, pair := range [][2]ssa.Value{{x.X, x.Y}, {x.Y, x.X}} {
-							if cell := cellOfLoad(pair[0]); cell != nil && onPath(pair[1]) {
-								usedAsPrefix[cell] = in
-							}
-						}
-					}
-				case *ssa.Call:
-					switch ir.CalleeFullName(x) {
-					case "strings.TrimPrefix", "strings.HasPrefix", "strings.CutPrefix":
-						if len(x.Call.Args) == 2 && onPath(x.Call.Args[0]) {
-							if cell := cellOfLoad(x.Call.Args[1]); cell != nil {
-								usedAsPrefix[cell] = in
-							}
-						}
-					}
-				}
-			})
-			for cell, at := range usedAsPrefix {
-				c.Decide(rule6, fn, "the directory compared with / cut off the walked path is in cleaned form", at, c.cleanedCell(fn, cell.(*ssa.FreeVar)),
-					"the captured directory string is used as a literal prefix of (or compared with) paths handed out by filepath.Walk, which are cleaned, but it is not itself the result of filepath.Clean/Abs/EvalSymlinks: for a source directory spelled \".\", \"./x\", \"x/.\", \"x//\" or \"x/y/..\" the entry names are cut at the wrong offset (files renamed, or a slice-bounds panic) and the non-recursive guard skips every file")
-				n6++
 			}
 		}
-		for _, cr := range creates {
-			n++
-			if prunes {
-				c.Decide(rule, fn, "selection delegated to directory pruning (not analysed)", cr, true, "")
-				continue
-			}
-			if filter != nil {
-				q := ir.PathQuery{Fn: fn, Target: func(in ssa.Instruction, val *ir.Valuation) bool {
-					if in != ssa.Instruction(cr) {
-						return false
-					}
-					if isNil, ok := val.KnownNil(filter); ok && isNil {
-						return false
-					}
-					for _, fc := range filterCalls {
-						if k, ok := val.Known(fc); ok && k {
-							return false
-						}
-					}
-					return true
-				}}
-				c.pathVerdict(rule, fn, "archived only if the filter is nil or accepted the path", cr, q,
-					"a file becomes an archive entry on a path where the filter was neither nil nor asked-and-true: files the filter rejects are archived (or the filter's verdict is overwritten before it is used)")
-			}
-			if flag != nil {
-				q := ir.PathQuery{Fn: fn, Target: func(in ssa.Instruction, val *ir.Valuation) bool {
-					if in != ssa.Instruction(cr) {
-						return false
-					}
-					if k, ok := val.KnownCell(flag); ok && k {
-						return false
-					}
-					for _, dt := range dirTests {
-						k, ok := val.Known(dt)
-						if !ok {
-							continue
-						}
-						if bo, isBin := dt.(*ssa.BinOp); isBin {
-							if (bo.Op == token.EQL) == k {
-								return false
-							}
-							continue
-						}
-						return false
-					}
-					return true
-				}}
-				c.pathVerdict(rule, fn, "archived only if recursive or the file lies directly in the source directory", cr, q,
-					"a file becomes an archive entry on a path where the recursive flag is not known true and the directory comparison did not decide 'same directory': files of sub-folders are archived in non-recursive mode (or the test result is overwritten before it is used)")
+	})
+	z.prefixUses(r)
+	if depth < 3 {
+		for _, hc := range helperCalls {
+			if hr := z.calleeRoles(r, hc); hr != nil {
+				z.c.Saw(hr.fn)
+				r.helpers = append(r.helpers, &selHelper{call: hc, roles: z.visit(hr, depth+1)})
 			}
 		}
 	}
-	_ = n
-	c.R.Floor(rule, 2)
-	_ = n6
+	return r
+}
+
+// decidedOn: has the path (valuation val, in function r.fn) decided the selection input of the given kind?
+func (z *zipSel) decidedOn(r *selRoles, val *ir.Valuation, kind int, depth int) bool {
+	inputs := r.filters
+	if kind == selFlag {
+		inputs = r.flags
+	}
+	// a selection predicate of the repository whose result is known on this path
+	if depth < 3 {
+		for _, h := range r.helpers {
+			if !types.Identical(h.call.Type(), types.Typ[types.Bool]) {
+				continue
+			}
+			if k, ok := val.Known(h.call); ok && z.summary(h.roles, k, kind, depth+1) {
+				return true
+			}
+		}
+	}
+	if kind == selFlag {
+		// the comparison of the file's directory with the source directory decided "same directory"
+		for _, dt := range r.dirTests {
+			k, ok := val.Known(dt)
+			if !ok {
+				continue
+			}
+			if bo, isBin := dt.(*ssa.BinOp); isBin {
+				if (bo.Op == token.EQL) == k {
+					return true
+				}
+				continue
+			}
+			return true
+		}
+	}
+	if len(inputs) == 0 {
+		return false
+	}
+	for _, in := range inputs {
+		if !z.inputDecided(r, in, val, kind) {
+			return false
+		}
+	}
+	return true
+}
+
+func (z *zipSel) inputDecided(r *selRoles, in *selInput, val *ir.Valuation, kind int) bool {
+	if kind == selFilter {
+		if in.fv != nil {
+			if isNil, ok := val.KnownNil(in.fv); ok && isNil {
+				return true
+			}
+		} else {
+			for _, b := range r.nilTests[in] {
+				if k, ok := val.Known(b); ok && k == (b.Op == token.EQL) {
+					return true
+				}
+			}
+		}
+		for _, fc := range r.filterCalls[in] {
+			if k, ok := val.Known(fc); ok && k {
+				return true
+			}
+		}
+		return false
+	}
+	if in.fv != nil {
+		k, ok := val.KnownCell(in.fv)
+		return ok && k
+	}
+	for rd := range in.reads {
+		if k, ok := val.Known(rd); ok && k {
+			return true
+		}
+	}
+	return false
+}
+
+// summary: every path of the helper that returns the given truth has decided the selection input of the given kind.
+func (z *zipSel) summary(h *selRoles, truth bool, kind int, depth int) bool {
+	key := fmt.Sprintf("%s|%t|%d", h.key, truth, kind)
+	if res, ok := z.summaries[key]; ok {
+		return res != nil && *res // nil: being computed (recursion) - not decided
+	}
+	z.summaries[key] = nil
+	fn := h.fn
+	res := false
+	if fn.Signature.Results().Len() == 1 && fn.Recover == nil {
+		q := ir.PathQuery{Fn: fn, Target: func(in ssa.Instruction, val *ir.Valuation) bool {
+			ret, ok := in.(*ssa.Return)
+			if !ok || len(ret.Results) != 1 {
+				return false
+			}
+			if k, known := val.Known(ret.Results[0]); known && k != truth {
+				return false
+			}
+			return !z.decidedOn(h, val.Assume(ret.Results[0], truth), kind, depth)
+		}}
+		w, err := q.Find()
+		res = err == nil && w == nil
+	}
+	z.summaries[key] = &res
+	return res
+}
+
+// prefixUses is R6: prefix arithmetic on walked paths needs a cleaned root. filepath.Walk hands the callback paths built
+// with filepath.Join(root, name), i.e. cleaned; a directory string that is sliced off the walked path by its length, or
+// compared with (the directory of) the walked path, is the prefix actually present only if it is in filepath.Clean form
+// itself ("." / "./x" / "x/." / "x//" / "x/y/.." are not).
+func (z *zipSel) prefixUses(r *selRoles) {
+	if z.rule6 == "" {
+		return
+	}
+	fn := r.fn
+	used := map[*selInput]ssa.Instruction{}
+	var order []*selInput
+	note := func(d *selInput, at ssa.Instruction) {
+		if _, has := used[d]; !has {
+			order = append(order, d)
+		}
+		used[d] = at
+	}
+	ir.Instrs(fn, func(in ssa.Instruction) {
+		switch x := in.(type) {
+		case *ssa.Slice:
+			if x.Low == nil || !z.onPath(r, x.X) {
+				return
+			}
+			if call, ok := peelLocal(x.Low).(*ssa.Call); ok {
+				if b := builtinCall(call, "len"); b != nil {
+					if d := r.dirInputOf(b.Args[0]); d != nil {
+						note(d, in)
+					}
+				}
+			}
+		case *ssa.BinOp:
+			if x.Op == token.EQL || x.Op == token.NEQ {
+				for _, pair := range [][2]ssa.Value{{x.X, x.Y}, {x.Y, x.X}} {
+					if d := r.dirInputOf(pair[0]); d != nil && z.onPath(r, pair[1]) {
+						note(d, in)
+					}
+				}
+			}
+		case *ssa.Call:
+			switch ir.CalleeFullName(x) {
+			case "strings.TrimPrefix", "strings.HasPrefix", "strings.CutPrefix":
+				if len(x.Call.Args) == 2 && z.onPath(r, x.Call.Args[0]) {
+					if d := r.dirInputOf(x.Call.Args[1]); d != nil {
+						note(d, in)
+					}
+				}
+			}
+		}
+	})
+	for _, d := range order {
+		k := ir.FnName(fn) + "|" + d.key()
+		if z.r6done[k] {
+			continue
+		}
+		z.r6done[k] = true
+		z.c.Decide(z.rule6, fn, "the directory compared with / cut off the walked path is in cleaned form", used[d], z.cleanedInput(fn, d, 0),
+			"the captured directory string is used as a literal prefix of (or compared with) paths handed out by filepath.Walk, which are cleaned, but it is not itself the result of filepath.Clean/Abs/EvalSymlinks: for a source directory spelled \".\", \"./x\", \"x/.\", \"x//\" or \"x/y/..\" the entry names are cut at the wrong offset (files renamed, or a slice-bounds panic) and the non-recursive guard skips every file")
+	}
+}
+
+// cleanedInput: whatever the input of fn holds derives from a path-cleaning call - for a captured variable the value in
+// the cell when the closure is made, for a parameter the argument of every call of fn, for a receiver field every
+// value stored into it.
+func (z *zipSel) cleanedInput(fn *ssa.Function, in *selInput, depth int) bool {
+	if depth > 4 {
+		return false
+	}
+	switch {
+	case in.fv != nil:
+		return z.c.cleanedCell(fn, in.fv)
+	case in.param != nil:
+		idx := -1
+		for i, p := range fn.Params {
+			if p == in.param {
+				idx = i
+			}
+		}
+		n := 0
+		for _, g := range z.fns {
+			for _, call := range callsTo(g, fn) {
+				if idx < 0 || idx >= len(call.Call.Args) {
+					return false
+				}
+				n++
+				if !z.cleanedValue(g, call.Call.Args[idx], depth+1) {
+					return false
+				}
+			}
+		}
+		return n > 0
+	case in.field != nil:
+		sts := z.fieldStores(in.field)
+		for _, st := range sts {
+			if !z.cleanedValue(st.Parent(), st.Val, depth+1) {
+				return false
+			}
+		}
+		return len(sts) > 0
+	}
+	return false
+}
+
+var cleaningCalls = map[string]bool{"path/filepath.Clean": true, "path/filepath.Abs": true, "path/filepath.EvalSymlinks": true,
+	"path/filepath.Join": true, "path/filepath.Dir": true, "path/filepath.Rel": true, "path.Clean": true}
+
+// cleanedValue: the value v of function g derives from a path-cleaning call.
+func (z *zipSel) cleanedValue(g *ssa.Function, v ssa.Value, depth int) bool {
+	if depth > 8 || v == nil {
+		return false
+	}
+	switch x := v.(type) {
+	case *ssa.ChangeType:
+		return z.cleanedValue(g, x.X, depth+1)
+	case *ssa.Convert:
+		if isStringType(x.Type()) && isStringType(x.X.Type()) {
+			return z.cleanedValue(g, x.X, depth+1)
+		}
+	case *ssa.Call:
+		if cleaningCalls[ir.CalleeFullName(x)] {
+			return true
+		}
+		// a helper: cleanliness passes through its string arguments
+		for _, a := range x.Call.Args {
+			if isStringType(a.Type()) && z.cleanedValue(g, a, depth+1) {
+				return true
+			}
+		}
+	case *ssa.Extract:
+		return z.cleanedValue(g, x.Tuple, depth+1)
+	case *ssa.Phi:
+		for _, e := range x.Edges {
+			if !z.cleanedValue(g, e, depth+1) {
+				return false
+			}
+		}
+		return len(x.Edges) > 0
+	case *ssa.Parameter:
+		return z.cleanedInput(g, &selInput{param: x, typ: x.Type()}, depth+1)
+	case *ssa.UnOp:
+		if x.Op != token.MUL {
+			return false
+		}
+		switch a := x.X.(type) {
+		case *ssa.Alloc:
+			var dom *ssa.Store
+			for _, st := range ir.StoresTo(a) {
+				if ir.Dominates(st, x) && (dom == nil || ir.Dominates(dom, st)) {
+					dom = st
+				}
+			}
+			if dom != nil {
+				return z.cleanedValue(g, dom.Val, depth+1)
+			}
+		case *ssa.FreeVar:
+			return z.c.cleanedCell(g, a)
+		case *ssa.FieldAddr:
+			if f := ir.FieldOf(a); f != nil {
+				return z.cleanedInput(g, &selInput{field: f, typ: f.Type()}, depth+1)
+			}
+		}
+	}
+	return false
 }
 
 // cleanedCell: the captured variable fv of closure fn holds, when the closure is made, a value whose derivation
@@ -810,4 +1467,200 @@ func (c *Ctx) pathVerdict(rule string, fn *ssa.Function, construct string, at ss
 	default:
 		c.Decide(rule, fn, construct, at, true, "")
 	}
+}
+
+// ---------------------------------------------------------------------------
+// containment evidence for the per-path form of R1
+
+type contCall struct {
+	call *ssa.Call
+	pred *ssa.Function // repository predicate (nil: filepath.IsLocal)
+}
+
+// inlineRel is a containment test spelled out in place: rel, err := filepath.Rel(dir, target) followed by the tests
+// err == nil, rel != ".." and !strings.HasPrefix(rel, ".."+separator) - the body of the repository's predicate.
+type inlineRel struct {
+	rel    *ssa.Call
+	target ssa.Value
+	errNil []*ssa.BinOp
+	dotdot []*ssa.BinOp
+	prefix []*ssa.Call
+}
+
+// holds: on this path the error is known nil, the relative path known different from ".." and known not to start
+// with "../".
+func (r inlineRel) holds(val *ir.Valuation) bool {
+	okErr, okDD, okPre := false, false, false
+	for _, b := range r.errNil {
+		if k, ok := val.Known(b); ok && k == (b.Op == token.EQL) {
+			okErr = true
+		}
+	}
+	for _, b := range r.dotdot {
+		if k, ok := val.Known(b); ok && k == (b.Op == token.NEQ) {
+			okDD = true
+		}
+	}
+	for _, p := range r.prefix {
+		if k, ok := val.Known(p); ok && !k {
+			okPre = true
+		}
+	}
+	return okErr && okDD && okPre
+}
+
+type contEvidence struct {
+	calls  []contCall
+	inline []inlineRel
+}
+
+// relCall: call is filepath.Rel or a repository wrapper that returns filepath.Rel(.., param); the tested path argument.
+func relCall(call *ssa.Call) (target ssa.Value, ok bool) {
+	if ir.CalleeFullName(call) == "path/filepath.Rel" {
+		if len(call.Call.Args) == 2 {
+			return call.Call.Args[1], true
+		}
+		return nil, false
+	}
+	cal := ir.StaticCallee(call)
+	if cal == nil || len(cal.Blocks) != 1 {
+		return nil, false
+	}
+	var inner *ssa.Call
+	n := 0
+	for _, in := range cal.Blocks[0].Instrs {
+		if x, isCall := in.(*ssa.Call); isCall {
+			n++
+			inner = x
+		}
+	}
+	if n != 1 || ir.CalleeFullName(inner) != "path/filepath.Rel" || len(inner.Call.Args) != 2 {
+		return nil, false
+	}
+	rets := ir.Returns(cal)
+	if len(rets) != 1 || len(rets[0].Results) != 2 {
+		return nil, false
+	}
+	for i, r := range rets[0].Results {
+		ex, isEx := r.(*ssa.Extract)
+		if !isEx || ex.Tuple != ssa.Value(inner) || ex.Index != i {
+			return nil, false
+		}
+	}
+	p, isParam := ir.Resolve(inner.Call.Args[1]).(*ssa.Parameter)
+	if !isParam {
+		return nil, false
+	}
+	for i, q := range cal.Params {
+		if q == p && i < len(call.Call.Args) {
+			return call.Call.Args[i], true
+		}
+	}
+	return nil, false
+}
+
+// dotDotSepPrefix: v is ".."+separator.
+func dotDotSepPrefix(v ssa.Value) bool {
+	v = ir.Resolve(v)
+	if cv := ir.ConstVal(v); cv != nil && cv.Kind() == constant.String {
+		s := constant.StringVal(cv)
+		return s == "../" || s == "..\\"
+	}
+	if b, ok := v.(*ssa.BinOp); ok && b.Op == token.ADD {
+		if cv := ir.ConstVal(ir.Resolve(b.X)); cv != nil && cv.Kind() == constant.String && constant.StringVal(cv) == ".." {
+			return endsWithSeparator(b.Y)
+		}
+	}
+	return false
+}
+
+func isStringConst(v ssa.Value, s string) bool {
+	cv := ir.ConstVal(ir.Resolve(v))
+	return cv != nil && cv.Kind() == constant.String && constant.StringVal(cv) == s
+}
+
+func (c *Ctx) containmentEvidence(fn *ssa.Function, t map[ssa.Value]bool, isContainment func(*ssa.Call) (bool, *ssa.Function)) contEvidence {
+	var ev contEvidence
+	ir.Instrs(fn, func(in ssa.Instruction) {
+		call, ok := in.(*ssa.Call)
+		if !ok {
+			return
+		}
+		if isC, pred := isContainment(call); isC {
+			ev.calls = append(ev.calls, contCall{call, pred})
+			return
+		}
+		target, isRel := relCall(call)
+		if !isRel || !t[target] {
+			return
+		}
+		rt := inlineRel{rel: call, target: target}
+		var e0, e1 []ssa.Value
+		if refs := call.Referrers(); refs != nil {
+			for _, r := range *refs {
+				if ex, isEx := r.(*ssa.Extract); isEx {
+					if ex.Index == 0 {
+						e0 = append(e0, ex)
+					} else {
+						e1 = append(e1, ex)
+					}
+				}
+			}
+		}
+		isOf := func(v ssa.Value, set []ssa.Value) bool {
+			v = ir.Resolve(v)
+			for _, s := range set {
+				if v == s {
+					return true
+				}
+			}
+			return false
+		}
+		ir.Instrs(fn, func(in2 ssa.Instruction) {
+			switch x := in2.(type) {
+			case *ssa.BinOp:
+				if x.Op != token.EQL && x.Op != token.NEQ {
+					return
+				}
+				for _, pr := range [][2]ssa.Value{{x.X, x.Y}, {x.Y, x.X}} {
+					if isOf(pr[0], e1) && ir.IsNilConst(pr[1]) {
+						rt.errNil = append(rt.errNil, x)
+					}
+					if isOf(pr[0], e0) && isStringConst(pr[1], "..") {
+						rt.dotdot = append(rt.dotdot, x)
+					}
+				}
+			case *ssa.Call:
+				if ir.CalleeFullName(x) == "strings.HasPrefix" && len(x.Call.Args) == 2 && isOf(x.Call.Args[0], e0) && dotDotSepPrefix(x.Call.Args[1]) {
+					rt.prefix = append(rt.prefix, x)
+				}
+			}
+		})
+		if len(rt.errNil) > 0 && len(rt.dotdot) > 0 && len(rt.prefix) > 0 {
+			ev.inline = append(ev.inline, rt)
+		}
+	})
+	return ev
+}
+
+// coversOn: on this path a is x, or the Dir/Clean of x.
+func coversOn(val *ir.Valuation, a, x ssa.Value) bool {
+	x = val.Selected(x)
+	for i := 0; i < 6; i++ {
+		a = val.Selected(a)
+		if same(a, x) {
+			return true
+		}
+		call, ok := ir.Resolve(a).(*ssa.Call)
+		if !ok {
+			return false
+		}
+		switch ir.CalleeFullName(call) {
+		case "path/filepath.Dir", "path/filepath.Clean":
+			a = call.Call.Args[0]
+		default:
+			return false
+		}
+	}
+	return false
 }
